@@ -1,6 +1,9 @@
 from vlib import runner, sysprops
 
-PARTIAL = []
+PARTIAL = [
+    'server side: the theorems are state-level (failure tag, done => dropped, drop aborts all); acceptance of the server C09 monitor on every model trace is not proved (validated by correspondence)',
+    'no-panic under faults holds for op sequences whose clock stays below 2^35 ms (known finding timer-wheel lag)',
+]
 
 
 def run(tier, seed, replay):
